@@ -42,6 +42,8 @@ type trOp struct {
 	Args []TV    `json:"args"`
 	Flds []trFld `json:"flds"`
 	Fuel int     `json:"fuel"`
+	// names of recorded calls the Go side cannot observe; zvdrv drops them from the field `ev` before comparing
+	Hide []string `json:"hide,omitempty"`
 }
 
 func tvInt(v int64) TV    { s := strconv.FormatInt(v, 10); return TV{I: &s} }
@@ -63,6 +65,7 @@ type trFn struct {
 	table, name string
 	gen         func(r *Rand) ([]TV, []trFld)
 	run         func(args []TV, flds []trFld) ([]TV, []trFld)
+	hide        []string
 }
 
 var trFns []trFn
@@ -104,7 +107,7 @@ func genCTR(r *Rand, tier string, emit func(op any)) {
 			if flds == nil {
 				flds = []trFld{}
 			}
-			emit(trOp{T: f.table, F: f.name, Args: args, Flds: flds, Fuel: 100000})
+			emit(trOp{T: f.table, F: f.name, Args: args, Flds: flds, Fuel: 100000, Hide: f.hide})
 		}
 	}
 }
